@@ -31,6 +31,8 @@ import (
 
 // mapOrderAllow is the confirmed instance table (read and triaged by hand).
 var mapOrderAllow = map[string]string{
+	"(*storage/store.baseStore).Iter/map-range#1":       "callers: the development-mode initial store snapshot (InitialSnapshotData of sendSnapshots) and the offline analytics tool; the order of keys inside a snapshot message is not part of the (block number, block id, output payload) sequence C01 speaks of",
+	"wasm/wazero.addExtensionFunctions/map-range#1":     "the compiled host-extension modules are collected per namespace and instantiated independently of one another; their order is not observable in any module output",
 	"(*storage/execout/pb.Map).MarshalFast/map-range#1": "the item order inside a cached-output file follows map iteration; readers (UnmarshalFast) rebuild a map keyed by block id and SortedItems sorts before anything is sent, so only the bytes — not the content — of the file vary",
 }
 
